@@ -290,6 +290,8 @@ func (c06) Run(c Case, env *Env) Result {
 		// ---- read phase
 		rd := mon.NewReader(stream)
 		rd.Budget = 64*len(stream) + 4096
+		rd.Chunk = []int{0, 1, 5}[j%3] // whole reads / one byte per Read / five bytes per Read
+		rd.EOFWithData = j%2 == 1      // the last byte arrives together with io.EOF
 		outs := make([]interface{}, 0, len(hist))
 		ri := -1
 		var rerr error
